@@ -19,8 +19,25 @@ class _Cexptrk_Potential_Function(object):
   def _init_symbol_table(self):
     local_symbol_table = cexprtk.Symbol_Table({}, add_constants = True)
     parameter_names = self._potential_form_tuple.signature.parameter_names
+    label = self._potential_form_tuple.signature.label
+
+    # The expression language is case-insensitive: names that differ only by case (or not at all) are
+    # one variable, so only the last of the values given for them would be seen by the expression.
+    seen = {}
     for pn in parameter_names:
-      local_symbol_table.variables[pn] = 1.0
+      if pn.lower() in seen:
+        msg = "Name clash in signature of potential-form '{}': parameters '{}' and '{}' are the same variable (names are not case-sensitive)".format(label, seen[pn.lower()], pn)
+        raise Potential_Form_Exception(msg)
+      seen[pn.lower()] = pn
+
+    for pn in parameter_names:
+      try:
+        local_symbol_table.variables[pn] = 1.0
+      except (KeyError, cexprtk._exceptions.NameShadowException) as e:
+        # Reserved words, built-in constants and functions of the expression language and
+        # names that are not identifiers cannot be used as parameter names.
+        msg = "'{}' cannot be used as a parameter name in the signature of potential-form '{}': {}".format(pn, label, e.args[0] if e.args else e)
+        raise Potential_Form_Exception(msg)
     return local_symbol_table
 
   def register_function(self, func):
@@ -28,8 +45,9 @@ class _Cexptrk_Potential_Function(object):
     label = func._potential_form_tuple.signature.label
     try:
       self._local_symbol_table.functions[label] = func
-    except cexprtk._exceptions.NameShadowException as e:
-      msg = "Name clash for potential-form '{}': {}".format(label, str(e))
+    except (KeyError, cexprtk._exceptions.NameShadowException) as e:
+      # (a function that has the name of one of this potential-form's parameters is reported as KeyError)
+      msg = "Name clash for potential-form '{}': {}".format(label, e.args[0] if e.args else e)
       raise Potential_Form_Exception(msg)
       
 
